@@ -963,6 +963,13 @@ def format_toc(obj: model.Documentable) -> Optional[Tag]:
                 toc = None
             if toc:
                 linker = obj.docstring_linker
+                # The entries link to the headings of the rendered docstring: when it cannot be rendered,
+                # the page shows its plain text, without headings (the problem is reported there).
+                try:
+                    with linker.switch_context(obj):
+                        obj.parsed_docstring.to_stan(linker)
+                except Exception:
+                    return None
                 with linker.switch_context(obj):
                     # Problems in the titles are reported when the docstring itself is rendered.
                     linker.reporting_obj = None
